@@ -199,8 +199,12 @@ package simple
 //@   allocates simple.Inode, buf.Buf, marshal.Dec, marshal.Enc, cell:uint64, []uint8
 //@   modifies jblk, jtouched
 //@   ensures [SI-init] forall j uint64 :: j < 32 ==> sblk(j) == 514 + j @C17
+// the server runs this at every start on the preserved disk: every file keeps its size and contents
+//@   ensures [SI-sizes-kept] forall j uint64 :: j < 32 ==> ssize(j) == old(ssize(j)) @C17
+//@   ensures [SI-data-kept] forall j uint64, b uint64 :: j < 32 && b < 4096 ==> sbyte(j, b) == old(sbyte(j, b)) @C17
 //@   ensures [touched-range] forall j uint64 :: jtouched[j] ==> old(jtouched)[j] || j < 32
 //@   loop 0 invariant [touched] forall j uint64 :: jtouched[j] ==> old(jtouched)[j] || j < 32
+//@   loop 0 invariant [kept] (forall j uint64 :: j < 32 ==> ssize(j) == old(ssize(j))) && (forall j uint64, b uint64 :: j < 32 && b < 4096 ==> sbyte(j, b) == old(sbyte(j, b)))
 //@   loop 0 invariant i <= 32 && (forall j uint64 :: j < i ==> sblk(j) == 514 + j) && (forall p *Inode :: !fresh(p) ==> p.Data == old(p.Data))
 //@   loop 0 decreases 32 - i
 
